@@ -16,6 +16,21 @@ and still counts in every total (and in the subtotals it is an addend of).  So t
 vector of (B) must be exactly the selection by (B)'s own row_order() / column_order() of the FULL
 (base + inserted) share computed (i) by the model and (ii) by the property oracle from the sums of
 ALL base rows / columns as reported by (A).
+
+Unit-of-measurement class (seeded change C15-11: `_TotalShareSum.blocks` guarded the table total with
+`np.isclose(total, 0.0)`, whose ABSOLUTE tolerance of 1e-8 turns every total share of a table recorded in
+very small units into NaN; the survey-sized sums of the other cases never have a non-zero total below 1):
+a share is a quotient of two sums of the same variable, so the property text makes it independent of the
+unit the variable is recorded in.  An extra population of cases (`scale_exp` in the case; same generator,
+slices, strands and NUM_ARRAY rows, NaN sums, subtotals, display twin, read-order leg) has every numeric
+sum of the response multiplied by a power of ten from 1e-12 .. 1e+9 before the library reads it.  The
+scaled sums reported by the library are fed to the (exact) model and to the property oracle as they are,
+and a third leg (`scale-invariance`) requires the shares of the scaled table to be the ones the property
+prescribes for the sums of the UNSCALED twin.  Shares are of order 1, so `core.close` (relative, floor 1)
+is the right comparator; the tiny sums themselves are never compared.  The class uses same-sign values
+(numeric answers >= 0) and subtotals without subtrahends, so that no total is a float cancellation residue
+(an exact 0 of the unscaled table would otherwise be a 1e-28 residue of the scaled one, which the model
+cannot follow); mixed signs and differences stay covered by the unscaled population.
 """
 import copy
 import json
@@ -31,17 +46,18 @@ From CC Require Import Base.XQ Base.Render Base.ListX Model.Subtotals Model.Shar
 Import ListNotations."""
 
 
-def numarr_response(rng):
+def numarr_response(rng, nonneg=False):
     """NUM_ARRAY x CAT response with a sum measure, built directly (layout [cat][subvar])."""
     n_sub = rng.randint(1, 4)
     catv = gen.make_cat(rng, "colv", numeric=None)
     if rng.random() < 0.6:
-        catv.view_insertions = gen.random_insertions(rng, catv)
+        catv.view_insertions = gen.random_insertions(rng, catv, differences=not nonneg)
     ncat = len(catv.cats)
     data, vc = [], []
     for _ in range(ncat * n_sub):
         r = rng.random()
-        data.append({"?": -8} if r < 0.12 else gen.fnum(Fraction(rng.randint(-8, 60), rng.choice([1, 2, 4]))))
+        x = Fraction(rng.randint(-8, 60), rng.choice([1, 2, 4]))
+        data.append({"?": -8} if r < 0.12 else gen.fnum(abs(x) if nonneg else x))
         vc.append(rng.randint(0, 9))
     md = {"references": {"alias": "arr", "name": "ARR",
                          "subreferences": [{"alias": "arr_%d" % k, "name": "Arr %d" % k} for k in range(n_sub)]},
@@ -110,11 +126,39 @@ def merged_transforms(case):
     return out
 
 
-def gen_case(rng, k):
+SCALE_EXPS_SMALL = list(range(-12, -6))
+SCALE_EXPS_OTHER = list(range(-6, 0)) + list(range(1, 10))
+
+
+def scale_factor(e):
+    return float("1e%d" % e)
+
+
+def scaled_response(resp, e):
+    """the same response with every numeric sum multiplied by 10**e (float product, as a data set
+    whose variable is recorded in another unit would report it); NaN markers and counts stay"""
+    out = copy.deepcopy(resp)
+    f = scale_factor(e)
+    m = out["result"]["measures"]["sum"]
+    m["data"] = [x if isinstance(x, dict) or x is None else float(x) * f for x in m["data"]]
+    return out
+
+
+def effective(case):
+    """the case as the library sees it (scaled cases: the response in the other unit)"""
+    if case.get("scale_exp") is None:
+        return case
+    return dict(case, response=scaled_response(case["response"], case["scale_exp"]))
+
+
+def gen_case(rng, k, scaled=False):
+    """scaled=True: the unit-of-measurement class (module docstring) - numeric answers >= 0, no
+    subtrahends, and a `scale_exp`; the stored response is the UNSCALED one"""
     r = rng.random()
     transforms = None
+    diffs = not scaled
     if r < 0.15:
-        resp = numarr_response(rng)
+        resp = numarr_response(rng, nonneg=scaled)
         shape = "numarr_x_cat"
         strand = False
         roles_vars = [("rows_dimension", None, "numarr"),
@@ -124,11 +168,15 @@ def gen_case(rng, k):
         rowv = gen.make_cat(rng, "rowv") if rng.random() < 0.8 else gen.make_mr(rng, "rowv")
         colv = gen.make_cat(rng, "colv") if rng.random() < 0.8 else gen.make_mr(rng, "colv")
         if rowv.kind == "cat" and rng.random() < 0.7:
-            rowv.view_insertions = gen.random_insertions(rng, rowv)
+            rowv.view_insertions = gen.random_insertions(rng, rowv, differences=diffs)
         if colv.kind == "cat" and rng.random() < 0.6:
-            colv.view_insertions = gen.random_insertions(rng, colv)
+            colv.view_insertions = gen.random_insertions(rng, colv, differences=diffs)
         variables = [rowv] if strand else [rowv, colv]
         sv = gen.Survey(variables, rng.randint(0, 30) if rng.random() < 0.95 else 0, rng, numvars=["x"])
+        if scaled:
+            for resp_ in sv.resp:
+                if resp_["num"]["x"] is not None:
+                    resp_["num"]["x"] = abs(resp_["num"]["x"])
         aliases = [v.alias for v in variables]
         shp, _ = gen.tabulate(sv, aliases)
         size = 1
@@ -140,17 +188,24 @@ def gen_case(rng, k):
         shape = "%s%s" % (rowv.kind, "" if strand else "_x_" + colv.kind)
         if rng.random() < 0.25 and rowv.kind == "cat":
             # insertions given in the analysis transforms instead of the variable view
-            transforms = {"rows_dimension": {"insertions": gen.random_insertions(rng, rowv)}}
+            transforms = {"rows_dimension": {"insertions": gen.random_insertions(rng, rowv, differences=diffs)}}
         roles_vars = [(key, v, "elements" if v.kind == "cat" else "items")
                       for key, v in zip(("rows_dimension", "columns_dimension"), variables)]
     case = {"k": k, "response": resp, "transforms": transforms, "strand": strand, "shape": shape}
     add_display(rng, case, roles_vars)
+    if scaled:
+        case["scale_exp"] = rng.choice(SCALE_EXPS_SMALL if rng.random() < 0.5 else SCALE_EXPS_OTHER)
     return case
 
 
 def impl_run(case):
+    unscaled = case
+    case = effective(case)
     A = impl.partition(case["response"], case["transforms"])
     out = {"ndim": A.ndim}
+    if unscaled is not case:
+        # the twin in the original unit: only its sums are read (for the scale-invariance leg)
+        out["vU"] = {"sums": impl.get(impl.partition(unscaled["response"], case["transforms"]), "sums")}
     if A.ndim == 1:
         names = ["sums", "share_sum", "row_order"]
     else:
@@ -177,6 +232,8 @@ def build_term(case, io):
     if any(x[0] == "exc" for x in v.values()):
         return None
     if any(x[0] == "exc" for x in io.get("vB", {}).values()):
+        return None
+    if any(x[0] == "exc" for x in io.get("vU", {}).values()):
         return None
     if io["ndim"] == 1:
         n, ns = io["dims"]
@@ -242,11 +299,12 @@ def oracle_2d(io, blkS):
     return res
 
 
-def oracle_1d(io):
+def oracle_1d(io, base=None, sub=None):
     """Property value of the strand share for base rows and subtotals: the row's sum divided by
     the total over ALL base rows.  A subtotal whose total is 0 is left undecided (None): the
     library adds the addends' shares, which are infinities there."""
-    base, sub = io["base"], io["sums_sub"]
+    if base is None:
+        base, sub = io["base"], io["sums_sub"]
     tot = nansum(base)
     out = [xdiv(x, tot) for x in base]
     for x in sub:
@@ -325,13 +383,19 @@ def compare(case, io, toks):
                           {"measure": "share_sum", "block": "inserted_rows"}))
         # property oracle (independent of the model)
         orc = oracle_1d(io)
-        for k, (x, o) in enumerate(zip(ib + isub, orc)):
-            if o is not None and not core.close(x, o, inf_sign=False):
-                fails.append(("share_sum.%s impl-vs-property" % ("base" if k < n else "subtotals"),
-                              {"row": k, "impl": x, "property": o, "sums_base": io["base"],
-                               "subs": io["subs"]},
-                              {"measure": "share_sum", "block": "base" if k < n else "inserted_rows"}))
-                break
+        legs = [("", orc, io["base"])]
+        if "vU" in io:
+            # scale-invariance: the shares the property prescribes for the sums in the original unit
+            bU, sU = impl.blocks1d(io["vU"]["sums"][1], v["row_order"][1], n, ns)
+            legs.append(("scale-invariance ", oracle_1d(io, bU, sU), bU))
+        for leg, orc_, sums_ in legs:
+            for k, (x, o) in enumerate(zip(ib + isub, orc_)):
+                if o is not None and not core.close(x, o, inf_sign=False):
+                    fails.append(("share_sum.%s %simpl-vs-property" % ("base" if k < n else "subtotals", leg),
+                                  {"row": k, "impl": x, "property": o, "sums_base": sums_,
+                                   "scale_exp": case.get("scale_exp"), "subs": io["subs"]},
+                                  {"measure": "share_sum", "block": "base" if k < n else "inserted_rows"}))
+                    break
         if "vB" in io:
             vB = io["vB"]
             ro = [int(z) for z in vB["row_order"][1]]
@@ -356,9 +420,14 @@ def compare(case, io, toks):
     ro, co = v["row_order"][1], v["column_order"][1]
     blkS = impl.blocks2d(v["sums"][1], ro, co, nr, nc, nrs, ncs)
     orc = oracle_2d(io, blkS)
+    legs = [("", orc, io["base"])]
+    if "vU" in io:
+        # scale-invariance: the shares the property prescribes for the sums in the original unit
+        blkU = impl.blocks2d(io["vU"]["sums"][1], ro, co, nr, nc, nrs, ncs)
+        legs.append(("scale-invariance ", oracle_2d(io, blkU), blkU[0][0]))
     for name in ("row_share_sum", "column_share_sum", "total_share_sum"):
         ib = impl.blocks2d(v[name][1], ro, co, nr, nc, nrs, ncs)
-        ob = split_blocks(orc[name], nr, nc)
+        obs = [(leg, split_blocks(o_[name], nr, nc), sums_) for leg, o_, sums_ in legs]
         mblk = [[None, None], [None, None]]
         for a in range(2):
             for b in range(2):
@@ -375,20 +444,22 @@ def compare(case, io, toks):
                                    "subs": io["subs"]},
                                   {"measure": name, "block": blockname}))
                 # property oracle (independent of the model)
-                for i, row in enumerate(target):
-                    for j, x in enumerate(row):
-                        o = ob[a][b][i][j]
-                        if o is None:
+                for leg, ob, sums_ in obs:
+                    for i, row in enumerate(target):
+                        for j, x in enumerate(row):
+                            o = ob[a][b][i][j]
+                            if o is None:
+                                continue
+                            if not core.close(x, o, inf_sign=False):
+                                fails.append(("%s.%s %simpl-vs-property" % (name, blockname, leg),
+                                              {"cell": [i, j], "impl": x, "property": o,
+                                               "sums_base": sums_, "scale_exp": case.get("scale_exp"),
+                                               "subs": io["subs"]},
+                                              {"measure": name, "block": blockname}))
+                                break
+                        else:
                             continue
-                        if not core.close(x, o, inf_sign=False):
-                            fails.append(("%s.%s impl-vs-property" % (name, blockname),
-                                          {"cell": [i, j], "impl": x, "property": o,
-                                           "sums_base": io["base"], "subs": io["subs"]},
-                                          {"measure": name, "block": blockname}))
-                            break
-                    else:
-                        continue
-                    break
+                        break
         if "vB" in io:
             fails.extend(compare_displayed_2d(io, name, join_blocks(mblk, nr, nrs), orc[name]))
     return fails
@@ -455,6 +526,37 @@ def display_features(case, io):
     return f
 
 
+def scale_features(case, io):
+    """distribution keys of the unit-of-measurement class"""
+    e = case.get("scale_exp")
+    if e is None:
+        return []
+    kind = "strand" if io["ndim"] == 1 else "slice"
+    f = ["scaled:any", "scaled:" + kind, "scaled:1e%+03d" % e]
+    base = io["base"] if io["ndim"] == 1 else [x for r in io["base"] for x in r]
+    tot = nansum(base)
+    if not isinstance(tot, str) and tot != 0:
+        f.append("scaled:%s-nonzero-total-below-1e-8" % kind if abs(tot) < Fraction(1, 10 ** 8)
+                 else "scaled:%s-total-above-1e+8" % kind if abs(tot) > 10 ** 8
+                 else "scaled:%s-total-between" % kind)
+    if io["ndim"] == 1:
+        if io["dims"][1]:
+            f.append("scaled:strand-with-subtotals")
+    else:
+        nr, nrs, nc, ncs = io["dims"]
+        if nrs:
+            f.append("scaled:slice-with-row-subtotals")
+        if ncs:
+            f.append("scaled:slice-with-column-subtotals")
+        if nrs and ncs:
+            f.append("scaled:slice-with-intersections")
+    if any(exact(x) == "nan" for x in base):
+        f.append("scaled:nan-sums")
+    if "vB" in io:
+        f.append("scaled:with-display-twin")
+    return f
+
+
 def nontrivial(io):
     if io["ndim"] == 1:
         return io["dims"][0] >= 2
@@ -466,6 +568,8 @@ def _replayable(case):
     out = {k: case[k] for k in ("response", "transforms", "strand", "shape", "k")}
     if case.get("display"):
         out["display"] = case["display"]
+    if case.get("scale_exp") is not None:
+        out["scale_exp"] = case["scale_exp"]
     return out
 
 
@@ -477,6 +581,7 @@ def evaluate(cases, rep, tag="cases"):
         if t is None:
             excs = {n: x for n, x in io["v"].items() if x[0] == "exc"}
             excs.update({"display." + n: x for n, x in io.get("vB", {}).items() if x[0] == "exc"})
+            excs.update({"unscaled." + n: x for n, x in io.get("vU", {}).items() if x[0] == "exc"})
             rep.count_case(case, False)
             rep.violation("impl-exception", _replayable(case), {"exceptions": excs},
                           {"what": "exception"})
@@ -495,6 +600,8 @@ def evaluate(cases, rep, tag="cases"):
             rep.dist("col_subtotals=%d" % io["dims"][3])
         for f in display_features(case, io):
             rep.dist(f)
+        for f in scale_features(case, io):
+            rep.dist(f)
         if nt:
             rep.sample({"shape": case["shape"], "dims": io["dims"], "subs": io["subs"],
                         "sums_base": io["base"]})
@@ -506,13 +613,14 @@ def evaluate(cases, rep, tag="cases"):
         # public read of a second partition must be the ones of the fresh partition compared above
         if int(case.get("k", 0)) % 2 == 0:
             from harness.props import common_cases as cc
-            for n, a, b in cc.warnings_as_errors(case, list(io["v"]))[:1]:
+            seen = effective(case)  # scaled cases: the response the library was given
+            for n, a, b in cc.warnings_as_errors(seen, list(io["v"]))[:1]:
                 nfail += 1
                 rep.violation("impl-vs-property", _replayable(case),
                               {"what": n + " differs when warnings are errors", "normal": a,
                                "warnings_as_errors": b}, {"measure": n, "oracle": "warnings_as_errors"})
             rep.dist("warnings-as-errors")
-            population, late = cc.late_reads(case, [n for n in io["v"] if n != "sums"] + ["sums"], io["v"])
+            population, late = cc.late_reads(seen, [n for n in io["v"] if n != "sums"] + ["sums"], io["v"])
             rep.dist("late-reads:" + ("strand" if io["ndim"] == 1 else "slice"))
             for n, a, b, culprits in late[:1]:
                 nfail += 1
@@ -530,6 +638,10 @@ def run(tier, seed):
     n_cases = 320 if tier == "quick" else 5000
     rng = random.Random(seed)
     cases = [gen_case(rng, k) for k in range(n_cases)]
+    # the unit-of-measurement class: its own PRNG stream, so the population above is what it always was
+    n_scaled = 120 if tier == "quick" else 1500
+    rng_s = random.Random(1000003 * seed + 1511)
+    cases += [gen_case(rng_s, n_cases + k, scaled=True) for k in range(n_scaled)]
     coq_s, nterms, _ = evaluate(cases, rep)
     rep.cov["rule"] = (
         "random.Random(seed): CAT|MR x CAT|MR slices, CAT|MR strands and NUM_ARRAY x CAT slices with a sum "
@@ -541,7 +653,11 @@ def run(tier, seed):
         "(model and property oracle) computed from the sums of ALL base rows/columns of the "
         "untransformed twin: hidden rows with non-zero sums, shown subtotals with hidden addends, NaN "
         "sums (see the display:* distribution keys); non-trivial = non-empty table with >= 1 subtotal "
-        "(strand: >= 2 rows); distinct by content hash")
+        "(strand: >= 2 rows); distinct by content hash.  PLUS the unit-of-measurement class (120 quick / 1500 "
+        "thorough cases from the same generator with numeric answers >= 0 and subtotals without subtrahends): "
+        "every numeric sum of the response multiplied by 10**e, e in -12..-7 (50%) or -6..-1, 1..9, before "
+        "the library reads it; model and property oracle on the library's own scaled sums, and the "
+        "scale-invariance leg against the property's shares of the unscaled twin's sums (scaled:* keys)")
     rep.cov["coq_eval_seconds"] = round(coq_s, 2)
     rep.cov["model_terms_evaluated"] = nterms
     rep.assumptions = [
@@ -551,6 +667,8 @@ def run(tier, seed):
         "where, is C09's / C07's / C05's); only the VALUES at those positions are C15's",
         "addend/subtrahend offsets of each subtotal are read from the library's Dimension objects (owned by C04)",
         "an infinity from a zero total is compared without its sign (signed zero is not modelled)",
+        "unit-of-measurement class: same-sign sums and no subtrahends only, because an exactly-zero total of "
+        "mixed-sign sums becomes a float residue after scaling, which the exact model cannot follow",
     ]
     return rep.finish("proof", ob, trusted_base=core.TRUSTED_BASE_COMMON + [
         "Model/Share.v and Model/Subtotals.v are hand-written; tied to matrix/measure.py, stripe/measure.py, "
